@@ -102,6 +102,11 @@ def check_property(pid, tier, seed, log=print):
     jobs = [j for j in JOBS if pid in j['props'] and (tier == 'thorough' or not j.get('thorough_only'))]
     b2 = [j for j in B2JOBS if pid in j['props']]
     nat = [j for j in NATIVEJOBS if pid in j['props']]
+    skip = set(filter(None, os.environ.get('VP_SKIP_JOBS', '').split(',')))   # diagnosis only (first-pass measurements of seeded changes)
+    if skip:
+        jobs = [j for j in jobs if j['name'] not in skip]
+        b2 = [j for j in b2 if j['name'] not in skip]
+        log('DIAGNOSIS RUN: jobs skipped: %s' % sorted(skip))
     if not jobs and not b2:
         log('no machinery for %s' % pid)
         return 2
